@@ -1,5 +1,6 @@
 import Duckling.Model.Compile
 import Duckling.Lemmas.RBasic
+import Duckling.Props.C11
 /-
   C16 — unknown commands and IGNORE blocks pass through.
 
@@ -88,5 +89,17 @@ theorem C16_ignore_nested_rejected (pre : List PreLine) (b : List Node) (post : 
   induction pre with
   | nil => rfl
   | cons l rest ih => simp [rawLines, ih]
+
+/-- **IGNORE with a triple-quoted body**: the group between the two quote lines — parsed as the indentation parser parses it, each line
+    with the text it has after one indent unit per enclosing level was removed, so with its indentation relative to the quotes — is
+    emitted line for line, unchecked and unchanged -/
+theorem C16_ignore_quoted_body (ctx : Ctx) (pos : Pos) (st : St) (f : Nat) (tab : Option Str) (q q' : PreLine) (ls : List PreLine) (b : List Node)
+    (hq : startsWith tripleQuote q.content = true) (hq' : startsWith tripleQuote q'.content = true) (hnum : q.num ≠ 0)
+    (hls : ∀ l ∈ ls, isBlank l.content = false ∧ startsWith tripleQuote l.content = false)
+    (hb : parseFuel (f + 1) (q :: (ls ++ [q'])) tab = .ok b) :
+    ignorePre ctx pos b st = .ok (.done { st := st, out := ls.map (·.content) }) := by
+  rw [Duckling.Props.C11.C11_verbatim_group f tab q q' ls hq hq' hnum hls] at hb
+  cases hb
+  simp [ignorePre, C16_ignore_verbatim]
 
 end Duckling.Props.C16
